@@ -195,7 +195,10 @@ def _case(draw, maxdepth):
         stages = [["Select", p, ["site", ["var", p], "Evt", "jets", pos, kw]], ["Select", p2, ["op", "Select", ["var", p2], v2, inner]]]
     # some methods are declared @staticmethod / @classmethod (python accepts obj.m(...) for both): no receiver parameter to skip
     kinds = {k: draw(st.sampled_from(["plain"] * 8 + ["static", "static", "class", "recv:this", "recv:me"])) for k in model if k != "fn"}
-    return {"model": model, "stages": stages, "alias": draw(st.sampled_from(ALIASES)), "kinds": {k: v for k, v in kinds.items() if v != "plain"}}
+    # the return annotation of a scalar method may be a type variable that nothing binds (the result type is then unknown, the call
+    # site is not)
+    retvar = [k for k in ("Evt.val", "Jet.val", "Trk.val") if draw(st.integers(0, 5)) == 0]
+    return {"model": model, "stages": stages, "alias": draw(st.sampled_from(ALIASES)), "kinds": {k: v for k, v in kinds.items() if v != "plain"}, "retvar": retvar}
 
 
 def strategy(tier):
@@ -253,11 +256,15 @@ def exhaustive(tier):
 ALIASES = ["val", "val", "value", "Select", "Where", "MetaData", "SelectMany", "item_type", "First", "Count", "query_ast"]
 
 
-def build_model(model, alias="val", kinds=None):
+def build_model(model, alias="val", kinds=None, retvar=()):
     kinds = kinds or {}
-    ns = {"Iterable": Iterable, "_alias": alias}
+    from typing import TypeVar
+
+    ns = {"Iterable": Iterable, "_alias": alias, "U_": TypeVar("U_")}
     src = []
     ret = {"Evt.val": "float", "Evt.jets": "Iterable[Jet]", "Jet.val": "float", "Jet.trks": "Iterable[Trk]", "Jet.obj": "Trk", "Trk.val": "float"}
+    for k_ in retvar:
+        ret[k_] = "U_"
 
     def params(sig, key):
         out = []
@@ -400,7 +407,7 @@ def _depth_of_sites(ir, d=0):
 def check(case) -> Result:
     from func_adl import EventDataset, func_adl_callable
 
-    ns = build_model(case["model"], case.get("alias", "val"), case.get("kinds"))
+    ns = build_model(case["model"], case.get("alias", "val"), case.get("kinds"), case.get("retvar", ()))
     func_adl_callable()(ns["fn"])
     func_adl_callable()(ns["mk"])
     func_adl_callable()(ns["fself"])
